@@ -149,7 +149,7 @@ class Prop:
     ADV_OPS = ["set", "set", "set", "get", "del", "list", "dict", "event", "prop", "deleg",
                "add_trait", "remove_trait", "pickle", "clone", "ctrait", "setq", "items_event",
                "reg", "unreg", "gc", "child", "evil_drop", "bad_set", "trait_set", "reset",
-               "helper", "helper"]
+               "helper", "helper", "orig_default"]
 
     def gen_adv(self, seed):
         r = stream(seed, "adv")
@@ -267,6 +267,9 @@ class Prop:
                 "partner": T.Instance(T.HasTraits), "dv": T.DelegatesTo("partner", prefix="a"),
                 "child": T.Instance(T.HasTraits), "ro": T.ReadOnly,
                 "helper": T.Instance(T.HasTraits), "dh": T.DelegatesTo("helper", prefix="hx"),
+                # setattr_original_value traits with a dynamic default (a fresh object)
+                "ex": T.Expression(), "_ex_default": lambda obj: "1 + %d" % (len(holder["keep"]) + 7),
+                "sup": T.Supports(T.Interface), "_sup_default": lambda obj: None,
                 "ph": T.PrototypedFrom("helper", prefix="hx"),
                 "_dflt_default": _dflt_default, "_get_p": _get_p, "_set_p": _set_p,
                 "_get_cp": T.cached_property(lambda obj: (env.point("getter:cp"), obj.a)[1]),
@@ -405,6 +408,19 @@ class Prop:
                 safe(setattr, o, "ro", v)
                 safe(setattr, o, "ro", v)
                 safe(setattr, o, "cp", v)
+            elif k == "orig_default":
+                # first reads / assignments / deletions on fresh objects (defaults not yet
+                # computed) of the original-value traits
+                fresh_o = Adv()
+                safe(getattr, fresh_o, "ex")
+                safe(getattr, fresh_o, "ex_")
+                safe(getattr, fresh_o, "sup")
+                fresh_o2 = Adv()
+                fresh_o2.on_trait_change(H("ex"), "ex")
+                safe(setattr, fresh_o2, "ex", "2 + 2")
+                safe(delattr, fresh_o2, "ex")
+                safe(getattr, fresh_o2, "ex")
+                del fresh_o, fresh_o2
             elif k == "helper":
                 safe(setattr, o, "helper", Hx())
                 safe(getattr, o, "dh")
@@ -466,6 +482,20 @@ class Prop:
                         an = attrs[op["n"] * 7 % len(attrs)]
                         for an in (an, attrs[op["v"] % len(attrs)]):
                             safe(getattr, t2, an)
+                        # the setters that take several arguments, with well- and
+                        # ill-formed ones - and then the thing is USED
+                        for kind in (op["n"] % 11, 7, 8):
+                            for g in (v, (H("f"), ()), (H("f"), (), None), (H("f"), (), {}),
+                                      (1, 2, 3), None, H("f"), []):
+                                safe(t2.set_default_value, kind, g)
+                                safe(t2.default_value_for, o, name)
+                                safe(t2.default_value)
+                        for args in ((), (v,), (H("v"),), (1, 2, 3), (None, None)):
+                            safe(lambda: t2.set_validate(*args))
+                            safe(t2.validate, o, name, v)
+                            safe(lambda: t2.delegate(*args))
+                            safe(lambda: t2.property_fields)
+                            safe(lambda: t2._notifiers(*args))
                             safe(delattr, t2, an)
                             safe(getattr, t2, an)
                             for g in (v, None, 1, "s", (1, 2), H("garbage")):
